@@ -17,6 +17,7 @@ MANIFEST = {
     'technique': 'reference-model monitor on the real get_next_imf + bounded-iteration (logical step) monitor',
 }
 LOGGER_ON_ODD_SHARDS = 'quarter'   # (sifting logs heavily: a quarter of the shards run with the logger set up)
+SESSION_NOISE = True      # every shard starts after unrelated session activity (harness.session_noise)
 BUDGET_S = {'quick': 60, 'thorough': 420}
 NCASES = {'quick': 10000, 'thorough': 120000}
 RULE = ('seeded random first extractions (7 families, n 3..300, stop rule x thresholds x step in (0,1] x max_iters in '
@@ -53,7 +54,28 @@ def rand_opts(rng):
             o['sd_thresh'] = np.float64(o['sd_thresh'])
         if 'rilling_thresh' in o:
             o['rilling_thresh'] = gens.pick(rng, [list, np.array])(o['rilling_thresh'])
+    if rng.random() < .12:
+        # thresholds left to their documented defaults (sd_thresh 0.1, rilling_thresh (0.05, 0.5, 0.05))
+        o.pop('sd_thresh', None)
+        o.pop('rilling_thresh', None)
     return o
+
+
+def dynamic_range(rng, n):
+    """A tone whose amplitude grows (or decays) by many orders of magnitude within the record - an onset / ring-down -
+    or a short very strong burst, plus a slow riding wave of unit size."""
+    t = np.arange(n)
+    period = float(rng.uniform(6, 20))
+    gain = float(10 ** rng.uniform(2, 13))
+    riding = float(rng.uniform(.3, 1)) * np.sin(2 * np.pi * t / (period * float(rng.uniform(5, 9))))
+    if rng.random() < .7:
+        am = np.exp(np.log(gain) * (0.5 + 0.5 * np.tanh((t - n * float(rng.uniform(.3, .7))) / (n * float(rng.uniform(.05, .2))))))
+    else:
+        am = 1 + min(gain, 1e7) * np.exp(-((t - n / 2) / (n * .05)) ** 2)
+    x = am * np.sin(2 * np.pi * t / period) + riding
+    if rng.random() < .3:
+        x = x[::-1].copy()
+    return x * float(gens.pick(rng, [1, 1, 1e-6, 1e3]))
 
 
 def gen_case(rng):
@@ -63,6 +85,10 @@ def gen_case(rng):
     if eo['interp_method'] != 'splrep':
         n = min(n, 150)
     x = gens.signal(rng, kind, n)
+    if rng.random() < .04:
+        kind, n = 'dynamic-range', int(gens.pick(rng, [600, 1500, 2000]))
+        x = dynamic_range(rng, n)
+        eo = {'interp_method': 'splrep'}
     xp, _, tag = gens.present(rng, x, p_plain=.8)
     if tag == 'strided':
         xp = x
